@@ -19,6 +19,7 @@ under-determined by the recorded sibling-cycle finding are excluded from the
 comparison (a static, configuration-independent criterion) and counted."""
 import hashlib
 import itertools
+import math
 import pickle
 
 from .. import enumerate as E
@@ -40,6 +41,10 @@ ALPHA = {
     "mixq": ("W-mix", {"values": (3,), "index_values": (1,), "templates": ("mul2", "abs", "round1", "pick", "total", "dyn", "rpow", "lt"),
                        "iops": (("sub", ("lit", 1)),), "unreg": True, "knobs": ("K1",),
                        "sources": [mgr.P("a"), mgr.P("l", 1), mgr.P("o", ("a", "q"))]}),
+    # few operations, deeper: sibling members of one nested container, re-definitions, and a reader of the whole container
+    "sib": ("W-nest", {"values": (), "templates": ("mul2", "inc"), "leaves": [mgr.P("n", "x"), mgr.P("n", "y")],
+                       "sources": [mgr.P("a")],
+                       "extra": [("set", mgr.P("a"), 5), ("set", mgr.P("a"), 3), ("def", mgr.P("b"), mgr.tmpl("total", (mgr.P("n"),)))]}),
     "nest_full": ("W-nest", {"values": (3, 5), "templates": ("mul2", "add"), "iops": (("add", ("lit", 1)),), "unreg": True,
                              "funs": ("F1",), "knobs": ("K1",)}),
 }
@@ -278,12 +283,51 @@ def job_unusual(_):
             except Exception as ex:  # noqa
                 tr.append(type(ex).__name__)
         out.append(dg(tr))
+    # Python's operator / builtin protocols probed with a ref on either side, including forms the library does not define
+    import operator as op_
+    m = xdeps.Manager()
+    data = {"a": 7, "b": 2.5, "l": [1, 2, 3]}
+    s = m.ref(data, "s")
+    probes = []
+    binfuncs = [("divmod", divmod), ("pow", pow), ("add", op_.add), ("sub", op_.sub), ("mul", op_.mul), ("matmul", op_.matmul),
+                ("truediv", op_.truediv), ("floordiv", op_.floordiv), ("mod", op_.mod), ("lshift", op_.lshift), ("rshift", op_.rshift),
+                ("and", op_.and_), ("or", op_.or_), ("xor", op_.xor), ("lt", op_.lt), ("ge", op_.ge), ("eq", op_.eq), ("ne", op_.ne)]
+    for name, fn in binfuncs:
+        for lhs, rhs, lab in ((5, s["a"], "num,ref"), (s["a"], 5, "ref,num"), (2.5, s["b"], "float,ref"), (s["a"], s["b"], "ref,ref")):
+            probes.append((f"{name}({lab})", lambda fn=fn, lhs=lhs, rhs=rhs: fn(lhs, rhs)))
+    unfuncs = [("neg", op_.neg), ("pos", op_.pos), ("invert", op_.invert), ("abs", abs), ("round", round), ("trunc", math.trunc),
+               ("floor", math.floor), ("ceil", math.ceil), ("int", int), ("float", float), ("complex", complex), ("bool", bool),
+               ("index", op_.index), ("len", len), ("iter", iter), ("hash", lambda r: isinstance(hash(r), int)), ("repr", repr),
+               ("pow3", lambda r: pow(r, 2, 5)), ("round2", lambda r: round(r, 1))]
+    for name, fn in unfuncs:
+        for r, lab in ((s["a"], "item"), (s["l"], "list-item"), (s, "container")):
+            probes.append((f"{name}({lab})", lambda fn=fn, r=r: fn(r)))
+    # the floating-point environment: subnormal operands and results must survive (a build that switches flush-to-zero on
+    # for the interpreter would turn them into 0.0)
+    data["tiny"] = 1e-310
+    data["p"] = 1e-200
+    data["q"] = 1e-120
+    for label, thunk in (("subnormal operand", lambda: s["tiny"] * 1.0), ("subnormal product", lambda: s["p"] * s["q"]),
+                         ("subnormal sum", lambda: s["tiny"] + s["tiny"]), ("subnormal quotient", lambda: s["p"] / 1e120),
+                         ("plain python subnormal", lambda: float(repr(1e-200 * 1e-120)))):
+        probes.append((label, thunk))
+    for label, thunk in probes:
+        o = E.outcome(thunk)
+        if o[0] == "ok":
+            v = o[1]
+            if hasattr(v, "_get_value"):
+                d = [label, "expr", str(v), vdesc(E.outcome(lambda: v._get_value()))]
+            else:
+                d = [label, "plain", type(v).__name__, repr(v) if not hasattr(v, "__next__") else "iterator"]
+        else:
+            d = [label, o[0]]
+        out.append(dg(d))
     return {"part": [(("unusual", 0), out)], "n": len(out)}
 
 
 # ----------------------------------------------------------------- driver
 def sizes(tier):
-    return {"nest": 3, "mixq": 2} if tier == "quick" else {"nest": 3, "mix": 2, "nest_full": 2}
+    return {"nest": 3, "mixq": 2, "sib": 5} if tier == "quick" else {"nest": 3, "mix": 2, "nest_full": 2, "sib": 6}
 
 
 def plan(tier, seed):
@@ -380,7 +424,9 @@ def describe_program(key, idx):
         n = len(ATTR_POOL)
         if idx < 3 * n:
             return [f"attribute-style assignment of the field {ATTR_POOL[idx % n]!r} through a {('Ref over an object', 'nested AttrRef owner', 'refattr container')[idx // n]}"]
-        return [f"numpy scalar item key #{idx - 3 * n}"]
+        if idx < 3 * n + 5:
+            return [f"numpy scalar item key #{idx - 3 * n}"]
+        return [f"operator / builtin protocol probe #{idx - 3 * n - 5} (see job_unusual)"]
     return [f"path #{idx} of the path family vs all others"]
 
 
